@@ -27,7 +27,7 @@ func init() { register(c01{}) }
 
 func (c01) ID() string { return "C01" }
 func (c01) Rule() string {
-	return "records of the core writable domain from generator M4 (locus names, the five molecules, both topologies, optional 3-letter division, every kind of valid calendar date incl. 29-FEB and month ends, definitions with/without line breaks and trailing period, accession/version, 0..3 DBLINK pairs incl. empty values, keywords and taxonomy long enough to wrap, SOURCE/ORGANISM, 0..3 references with every sub-field optional, multi-line comments, extra fields, CONTIG-only records, sequence lengths 0..N incl. 1,9,10,11,59,60,61, feature tables of 0..n features with arbitrary INSDC locations and quoted/literal/toggle/multi-line/empty qualifiers), the real corpus (seqio/testdata), and records reached from those by pipelines of 1..4 operations drawn from insert/embed/delete/erase/slice(wrap-around too)/rotate/reverse/complement/concat (a step that panics belongs to another property: skipped and counted). For each record: write (w1) -> read -> write (w2): the reader accepts w1 and yields exactly one record, residues equal, feature table equal (keys, printed locations and atoms, qualifier names/values/order), every header field equal, w2 == w1 byte for byte; streams of 1..5 records: record j reads identically to the same record alone; after every parse the qualifier-name registries are sorted, pairwise disjoint and monotone. Also through the CLI: gts reverse | gts complement on w1 must both exit 0 and be read back. non-trivial: >=1 feature or CONTIG, and an optional field set; distinct: hash of w1. Unquoted qualifier values take the INSDC forms too (parenthesised, with a line break behind balanced and behind open parentheses); extra fields may have no value. Keyword and taxonomy lists may end in an entry with a period of its own; the word pool holds % signs. A sixth of the records are spelled with protein letters and the symbols * - . (residues like any other)."
+	return "records of the core writable domain from generator M4 (locus names, the five molecules, both topologies, optional 3-letter division, every kind of valid calendar date incl. 29-FEB and month ends, definitions with/without line breaks and trailing period, accession/version, 0..3 DBLINK pairs incl. empty values, keywords and taxonomy long enough to wrap, SOURCE/ORGANISM, 0..3 references with every sub-field optional, multi-line comments, extra fields, CONTIG-only records, sequence lengths 0..N incl. 1,9,10,11,59,60,61, feature tables of 0..n features with arbitrary INSDC locations and quoted/literal/toggle/multi-line/empty qualifiers), the real corpus (seqio/testdata), and records reached from those by pipelines of 1..4 operations drawn from insert/embed/delete/erase/slice(wrap-around too)/rotate/reverse/complement/concat (a step that panics belongs to another property: skipped and counted). For each record: write (w1) -> read -> write (w2): the reader accepts w1 and yields exactly one record, residues equal, feature table equal (keys, printed locations and atoms, qualifier names/values/order), every header field equal, w2 == w1 byte for byte; streams of 1..5 records: record j reads identically to the same record alone; after every parse the qualifier-name registries are sorted, pairwise disjoint and monotone. Also through the CLI: gts reverse | gts complement on w1 must both exit 0 and be read back. non-trivial: >=1 feature or CONTIG, and an optional field set; distinct: hash of w1. Unquoted qualifier values take the INSDC forms too (parenthesised, with a line break behind balanced and behind open parentheses); extra fields may have no value. Keyword and taxonomy lists may end in an entry with a period of its own; the word pool holds % signs. A sixth of the records are spelled with protein letters and the symbols * - . (residues like any other). DBLINK identifiers may hold colons; feature keys with an apostrophe or a hyphen (5'UTR, D-loop, -10_signal)."
 }
 func (c01) RequiredBuckets(tier string) []string {
 	return []string{"origin:generated", "origin:corpus", "origin:pipeline", "table:empty", "table:nonempty", "record:contig-only", "record:empty-sequence", "date:feb29", "stream:1", "stream:5",
